@@ -132,6 +132,32 @@ def observe_time(t, results=None):
     return o
 
 
+def observe_plan(sim):
+    """ where the integration loop places every function of every module on the sim's elapsed-time axis:
+        {module name: {function name: [elapsed sim time of each scheduled call, in plan order]}} ('sim' and 'people' are the
+        sim's own entries).  Read from the plan the loop will execute (sim.loop.plan), not from any Time object """
+    plan = getattr(getattr(sim, 'loop', None), 'plan', None)
+    out = {}
+    if plan is None: return out
+    for t, mod, fn in zip(list(plan['time']), list(plan['module']), list(plan['func_name'])):
+        out.setdefault(str(mod), {}).setdefault(str(fn), []).append(float(t))
+    return out
+
+
+def attach_plan(out, sim, names=None):
+    """ put each owner's part of the plan next to its observed timeline (o['plan']); a module of sim.modules that the plan does
+        not mention at all gets an empty dict (judged), a nested module that is not scheduled by itself gets None (not judged) """
+    plan = observe_plan(sim)
+    top = {m.name for m in sim.modules}
+    simplan = {}
+    for key in ('sim', 'people'):
+        for fn, ts in plan.get(key, {}).items(): simplan[f'{key}.{fn}'] = ts
+    out['sim']['plan'] = simplan
+    for name, o in out['mods'].items():
+        o['plan'] = plan.get(name, {}) if name in top else None
+    return out
+
+
 def canon_point(x):
     """ a time point as a comparable plain value: ISO date or float """
     if hasattr(x, 'year') and hasattr(x, 'month'): return iso(x)
@@ -272,7 +298,7 @@ def run_impl(spec, mod=None, modkind='sis', extra=(), mod2=None):
         o = observe_time(m.t)
         o['reslens'] = result_lens(m.results, m.t)
         out['mods'][m.name] = o
-    return out
+    return attach_plan(out, sim)
 
 
 def parse_model(line):
@@ -287,6 +313,7 @@ def parse_model(line):
         d['yearvec'] = ints(d['yearvec']); d['tvec'] = ints(d['tvec'])
         d['datevec'] = [] if d['datevec'] == '-' else d['datevec'].split(',')
         d['abstvec'] = None if d['abstvec'] == 'none' else ints(d['abstvec'])
+        d['plan'] = ints(d['plan']) if 'plan' in d else None      # Timeline.loopPlacement: where the loop schedules this owner
         d['reslen'] = int(d['reslen'])
         return d
     if line.startswith('E:'):
@@ -328,10 +355,29 @@ def compare_obs(ctx, o, m, with_abst=True):
             return f'result {k[:-len(".timevec-entries")]}: its timevec entries are not the owner\'s timevec'
         if ln != m['reslen']:
             return f'len(result {k}): impl={ln} model={m["reslen"]}'
+    d = compare_plan(ctx, o, m)
+    if d: return d
     d = compare_now(ctx, o, m)
     if d: return d
     if o.get('copies'):
         return 'copy of the Time object differs: ' + '; '.join(o['copies'][:3])
+    return None
+
+
+def compare_plan(ctx, o, m):
+    """ the loop's plan against the model: every function of this owner is scheduled once per point of the timeline, at the
+        elapsed sim time the model's make_abstvec gives for that point (Timeline.loopPlacement) """
+    plan = o.get('plan')
+    if plan is None or m.get('plan') is None or m.get('abstvec') is None: return None
+    if not plan and m['npts'] > 0:
+        return 'the loop plan schedules no function of this module'
+    for fn, ts in sorted(plan.items()):
+        if len(ts) != len(m['plan']):
+            return f"loop plan: {fn} is scheduled {len(ts)} times, model (loopPlacement): {len(m['plan'])} calls"
+        for i, (x, y) in enumerate(zip(ts, m['plan'])):
+            if abs(micro(x) - y) > 1:
+                return f'loop plan: call {i} of {fn} is scheduled at elapsed sim time {x!r}, model loopPlacement[{i}]={y / MICRO!r}'
+        ctx.count('plan_functions_compared')
     return None
 
 
@@ -742,6 +788,7 @@ def correspond(ctx):
                 if name is not None:
                     if m['npts'] == 0: ctx.count('module_empty_timeline')
                     if m['abstvec'] and m['abstvec'] != m['tvec']: ctx.count('module_placed_off_its_own_tvec')
+                    if m['abstvec'] and m['npts'] == ms[0].get('npts') and m['abstvec'] != ms[0].get('abstvec'): ctx.count('module_same_count_as_sim_other_instants')
         nontriv = 'err' in r or any(m.get('npts', 0) > 1 for m in ms)
         ctx.case(('mod', repr(sorted(s.items())), repr(sorted(c['mod'].items())), c['modkind'], repr(c.get('mod2'))), nontrivial=nontriv,
                  sample=dict(kind='module', sim=s, mod=c['mod'], modkind=c['modkind'],
@@ -919,6 +966,15 @@ def oracle_case(case):
     return fails + f2, info
 
 
+def req_date(x):
+    """ a date as the user wrote it ('D2000-01-01', '2000-01-01', '2000.01.01', a date object) in the notation of the reference """
+    if hasattr(x, 'year'): return 'D' + iso(x)
+    x = str(x)
+    if x.startswith('D'): x = x[1:]
+    y, m, d = (int(p) for p in x.replace('.', '-').split('-')[:3])
+    return f'D{y:04d}-{m:02d}-{d:02d}'
+
+
 def judge_run(s, r):
     """ The property on one accepted, observed run: s = the sim's specification as the user wrote it (decimal strings /
         D-dates), r = dict(sim=obs, mods={name: obs}, modpars={name: what the constructed module held before sim.init()}).
@@ -926,15 +982,23 @@ def judge_run(s, r):
     fails = []
     so = r['sim']
     sspec = resolved_spec(so, s.get('unit'), s)
+    sspec['stop_resolved'] = sspec['stop']       # the stop the code holds (the reference only uses it to tell the recorded float-truncation defect from other short grids)
     # the user's numbers, where given, are the reference for a numeric sim (stop = start + dur exactly)
     if so['numeric']:
-        if s.get('start') is not None: sspec['start'] = s['start']
-        if s.get('stop') is not None: sspec['stop'] = s['stop']
+        if s.get('start') is not None and not is_date(s['start']): sspec['start'] = s['start']
+        if s.get('stop') is not None and not is_date(s['stop']): sspec['stop'] = s['stop']      # (a date given for a numeric timeline: the code's reading stands)
         elif s.get('dur') is not None: sspec['stop'] = str(F(sspec['start']) + F(s['dur']))
         if s.get('dt') is not None: sspec['dt'] = s['dt']
-    elif s.get('dt') is not None: sspec['dt'] = s['dt']
+    else:
+        if s.get('dt') is not None: sspec['dt'] = s['dt']
+        # a calendar start / stop the user wrote IS the reference (the code's own resolved Time.start / Time.stop may not be what was
+        # asked for); a stop given as a number on a date timeline and a duration keep the code's resolved stop (the duration is
+        # judged below, `stop-from-dur`)
+        for k in ('start', 'stop'):
+            if is_date(s.get(k)): sspec[k] = req_date(s[k])
     sobs = to_obs(so)
     fails += ref.check_timeline(sspec, sobs, 'sim' + fmt_spec(s))
+    fails += plan_fails(so, 'sim' + fmt_spec(s))
     # a duration on a date timeline: the stop is the start plus dur units, to the calendar day
     if not so['numeric'] and s.get('dur') is not None and so['unit'] in ref.UNIT_DAYS:
         d0, d1 = ref.to_date(sspec['start']), ref.to_date(sspec['stop'])
@@ -945,6 +1009,7 @@ def judge_run(s, r):
     info = dict(skipped=[])
     for name, mo in r['mods'].items():
         mspec = resolved_spec(mo, None, None)
+        mspec['stop_resolved'] = mspec['stop']
         mobs = to_obs(mo)
         # what the constructed module held before sim.init() (its own overrides and its class defaults)
         gp = r['modpars'].get(name)
@@ -965,12 +1030,40 @@ def judge_run(s, r):
             elif gp['start'] is None and so['numeric'] and same_unit: mspec['start'] = sspec['start']
             if gp['stop'] is not None and not hasattr(gp['stop'], 'year') and not isinstance(gp['stop'], str): mspec['stop'] = gstr(gp['stop'])
             elif gp['stop'] is None and so['numeric'] and same_unit: mspec['stop'] = sspec['stop']
+        else:
+            for k in ('start', 'stop'):
+                if gp[k] is not None and (hasattr(gp[k], 'year') or isinstance(gp[k], str)): mspec[k] = req_date(gp[k])
+                elif gp[k] is None and not so['numeric'] and same_unit: mspec[k] = sspec[k]      # inherited from the sim: what the sim was asked for
         fails += ref.check_timeline(mspec, mobs, who)
         fails += check_defaults(r['modpars'].get(name), so, mo, sobs, mobs, who)
         pf, skipped = ref.check_placement(sspec, sobs, mspec, mobs, who)
         fails += pf
+        fails += plan_fails(mo, who)
         if skipped: info['skipped'].append(skipped)
     return fails, info
+
+
+def plan_fails(o, who):
+    """ The placement clause on what the loop will really execute: every function the integration plan schedules for this owner
+        is scheduled exactly once per point of the owner's timeline, at that point's instant on the sim's elapsed-time axis
+        (the owner's abstvec, which check_placement judges against the calendar independently).  o = raw observation """
+    fails = []
+    plan = o.get('plan')
+    if plan is None or o.get('abstvec') is None: return fails
+    def fail(cause, what): fails.append(dict(signature=dict(oracle='plan-placement', cause=cause), what=f'{who}: {what}'))
+    if not plan:
+        if o['npts'] > 0: fail('missing', f"the integration plan schedules no function of it although its timeline has {o['npts']} points")
+        return fails
+    eps = float(ref.TOL)
+    for fn, ts in sorted(plan.items()):
+        if len(ts) != o['npts']:
+            fail('count', f"the integration plan schedules {fn} {len(ts)} times, but the timeline has {o['npts']} points"); break
+        bad = next((i for i, (x, y) in enumerate(zip(ts, o['abstvec'])) if abs(x - y) > eps), None)
+        if bad is not None:
+            fail('instants', f"the integration plan schedules call {bad} of {fn} at elapsed sim time {ts[bad]}, but point {bad} of its timeline "
+                             f"({o['datevec'][bad] if not o['numeric'] else o['timevec'][bad]}) lies at elapsed sim time {o['abstvec'][bad]} (planned: {ts[:4]}..., timeline: {o['abstvec'][:4]}...)")
+            break
+    return fails
 
 
 def check_defaults(given, so, mo, sobs, mobs, who):
@@ -1103,7 +1196,8 @@ def probe_fails(sim, p, who):
 # EVERY module (also nested ones: the product of an intervention, the pools of MixingPools) is observed after sim.init()
 # and again after sim.run()
 
-PROBE_NAMES = ('c07probe', 'c07probe2', 'c07probe3', 'c07probe4', 'c07probe5', 'c07probe6')
+PROBE_NAMES = ('c07probe', 'c07probe2', 'c07probe3', 'c07probe4', 'c07probe5', 'c07probe6', 'c07probe7')
+PROBE_LABELS = ('', 'dt=2*sim.dt', 'dt=1.5*sim.dt', 'start=2 steps late', 'stop=2 steps early', 'other unit, start=2 steps late', 'as many points as the sim, other instants')
 
 
 def zoo_probes(cfg):
@@ -1134,6 +1228,17 @@ def zoo_probes(cfg):
             #  the code reads it as the default start year — so a date `0002-01-01` would not be "two steps late" but 1998 years early)
             if unit == 'year' and (s0 + 2 * dt).denominator == 1 and s0 >= 1:
                 out.append(make_probe(name=PROBE_NAMES[5], start=f'{int(s0 + 2 * dt):04d}-01-01', unit='week', dt=4.0))
+    # a probe with AS MANY POINTS as the sim but other instants: half the step over the second half of the sim (numeric starts),
+    # twice the step over twice the span, ending after the sim (day/week date sims); only when dt divides dur (else the counts differ)
+    if cfg.get('dur') is not None and dt > 0:
+        dur = F(repr(float(cfg['dur']))); n = dur / dt
+        if n.denominator == 1 and n >= 2:
+            if start is not None and not isinstance(start, str):
+                s0 = F(repr(float(start)))
+                out.append(make_probe(name=PROBE_NAMES[6], start=float(s0 + dur / 2), stop=float(s0 + dur), dt=float(dt / 2)))
+            elif isinstance(start, str) and unit in ('day', 'week') and (dt * ref.UNIT_DAYS[unit]).denominator == 1:
+                d0 = ref.to_date(cfg_spec(cfg)['start'])
+                out.append(make_probe(name=PROBE_NAMES[6], dt=float(2 * dt), stop=iso(d0 + dtm.timedelta(days=int(2 * dur * ref.UNIT_DAYS[unit])))))
     return out
 
 
@@ -1191,7 +1296,7 @@ def snapshot(sim, pre):
         out['mods'][name] = o
         if id(m) in pre: out['modpars'][name] = pre[id(m)]
         else: out['made_at_init'].append(name)
-    return out
+    return attach_plan(out, sim)
 
 
 _ZOO_RUNS = {}
@@ -1230,7 +1335,7 @@ def run_zoo(name, cfg):
     try:
         with_timeout(3 * TIME_LIMIT, sim.run)
         out['run'] = snapshot(sim, pre)
-        out['probe_fails'] = [f for pn, lbl in zip(PROBE_NAMES, ('', 'dt=2*sim.dt', 'dt=1.5*sim.dt', 'start=2 steps late', 'stop=2 steps early', 'other unit, start=2 steps late')) if pn in sim.analyzers
+        out['probe_fails'] = [f for pn, lbl in zip(PROBE_NAMES, PROBE_LABELS) if pn in sim.analyzers
                               for f in probe_fails(sim, sim.analyzers[pn], f'probe({lbl}) in sim{fmt_spec(out["spec"])}')]
     except (Exception, Hang) as e:
         out.update(run_err=err_kind(e), run_exc=f'{type(e).__name__}: {str(e)[:200]}')
